@@ -33,11 +33,14 @@ PROGS = {
     'sep': "print('x', 'y', sep='-', end='!\\n')\nprint('  lead')",
     'onlyspace': "print('   ')",
     'ctrl': "print('x\\ry', end='\\r')\nprint('p\\x0cq\\x0bz')",
+    # the prompt cannot be shown (its text fails to compute): nothing may be taken off the queue for that call
+    'badprompt': ("class P:\n    def __str__(self):\n        raise ValueError('no prompt')\ntry:\n    v = input(P())\n"
+                  "except ValueError:\n    v = input('two?')\nprint(v)"),
 }
 OPS = [('run', k) for k in PROGS] + [
     ('call', 'sil'), ('call', 'pr'), ('call', 'rd'), ('eval', '1+1'), ('clear_output',),
     ('set_input', ['i1', 'i2']), ('set_input', 'solo'), ('queue_input', 'q1', 'q2'), ('clear_input',),
-    ('set_input_noclear', ['k1']), ('set_input', []),
+    ('set_input_noclear', ['k1']), ('set_input', []), ('set_input_noclear', []), ('queue_input',),
     ('run_inputs', 'read2', []), ('run_inputs', 'read1', ['r1', 'r2']), ('call_inputs', 'rd', ''),
     ('set_input', 7), ('set_input_tuple', ('t1', 't2')), ('set_input_callable',), ('run_before_after', 'read1'),
     ('call_target', 'pr'),
@@ -103,7 +106,8 @@ class Model:
             if callable(self.inputs):
                 v = self.inputs(prompt)          # a callable source answers by itself (and echoes nothing)
             else:
-                out.write(CAL[prompt])
+                shown = prompt if isinstance(prompt, str) else str(prompt)     # may raise: then nothing is consumed
+                out.write(CAL[shown])
                 v = self.inputs.pop(0) if self.inputs else CAL['__default__']
             used.append(v)
             return v
